@@ -32,7 +32,9 @@ type scenario struct {
 	check func(outs map[proto.ID]any) error
 }
 
-func thr23() (*policy.Policy, []uint64) { return &policy.Policy{Family: policy.Threshold, N: 3, T: 2}, []uint64{1, 2, 3} }
+func thr23() (*policy.Policy, []uint64) {
+	return &policy.Policy{Family: policy.Threshold, N: 3, T: 2}, []uint64{1, 2, 3}
+}
 
 func cnf3() (*policy.Policy, []uint64) {
 	// maximal unqualified sets {0},{1},{2}... = 2-of-3 as a CNF (non-ideal: two rows per holder)
